@@ -25,6 +25,7 @@ REQUIRED = [
     copy_loop_invariant copy_samples_whole_frames
     pcm_roundtrip g711_roundtrip g711_raw_roundtrip
     short_data_pcm short_data_g711
+    pcm_frames_of_header g711_frames_of_header g711_fits_int16
     bad_header bad_header_short bad_header_magic bad_header_size_line
     canonical_header_parses""".split()
 ]
